@@ -155,7 +155,11 @@ pub fn oracle_c08(base: &str, ops: &[PairOp]) -> Verdict {
         }
     }
     if nshp != nshx || nshp != ndbf {
-        let sig = if ops.iter().any(|o| matches!(o, PairOp::ShortRow | PairOp::WrongRow)) { "row-rejected-after-shape-committed" } else { "pairs-count-mismatch" };
+        // the recorded finding is exactly: one extra shape (in .shp AND .shx) per rejected row, rows
+        // never ahead of shapes; any other imbalance is a different violation
+        let shapes_ok = ops.iter().enumerate().filter(|(q, o)| **o != PairOp::WrongShape || *q == 0).count();
+        let rejected = ops.iter().filter(|o| matches!(o, PairOp::ShortRow | PairOp::WrongRow)).count();
+        let sig = if rejected > 0 && nshp == nshx && nshp == shapes_ok && ndbf <= nshp { "row-rejected-after-shape-committed" } else { "pairs-count-mismatch" };
         return Verdict::fail(sig, format!("after the history {:?} the files hold {} shp records, {} shx entries, {} dbf rows", ops.iter().map(|o| o.tok()).collect::<Vec<_>>(), nshp, nshx, ndbf));
     }
     // read back: pairs in order, shape i with row i
